@@ -307,6 +307,65 @@ fn main() {
             }
         }
     });
+    // ---- service lives: the real monitor loop as the service starts it (guarded hook), each life from a status folder
+    // that already holds a report for the current sequence number (written by the enable handler or by an earlier life:
+    // none / transitioning / success / error), two passes per life over {status file absent, healthy, other version};
+    // a life has seen at most a handful of observations, so it never reports Error
+    let mut lives = 0u64;
+    let mut life_outcomes: BTreeMap<String, u64> = BTreeMap::new();
+    {
+        let exe_dir = proxy_agent_shared::misc_helpers::get_current_exe_dir();
+        let st_dir = base.join("status-lives");
+        let _ = std::fs::create_dir_all(&st_dir);
+        let henv = json!([{"version": 1.0, "handlerEnvironment": {"logFolder": base.join("logs").to_string_lossy(), "statusFolder": st_dir.to_string_lossy(), "configFolder": base.join("config").to_string_lossy(), "heartbeatFile": base.join("heartbeat.json").to_string_lossy(), "eventsFolder": ev_dir.to_string_lossy()}}]);
+        std::fs::write(exe_dir.join(constants::HANDLER_ENVIRONMENT_FILE), henv.to_string()).unwrap();
+        std::fs::write(exe_dir.join(constants::CURRENT_SEQ_NO_FILE), "7").unwrap();
+        let status_of = |p: &std::path::Path| -> Option<String> { serde_json::from_str::<Value>(&std::fs::read_to_string(p).ok()?).ok()?[0]["status"]["status"].as_str().map(|s| s.to_string()) };
+        let inputs = [In::Unreadable, In::Healthy, In::Mismatch];
+        rt.block_on(async {
+            for pre in [None, Some(constants::TRANSITIONING_STATUS), Some(constants::SUCCESS_STATUS), Some(constants::ERROR_STATUS)] {
+                for a in inputs {
+                    for b in inputs {
+                        let file = st_dir.join("7.status");
+                        let _ = std::fs::remove_file(&file);
+                        if let Some(p) = pre {
+                            ext_harness::common::report_status_enable_command(st_dir.clone(), "7", Some(p.to_string()));
+                        }
+                        let set_input = |i: In| match i {
+                            In::Unreadable => {
+                                let _ = std::fs::remove_file(STATUS_FILE);
+                            }
+                            In::Mismatch => std::fs::write(STATUS_FILE, status_doc("9.9.9")).unwrap(),
+                            // (no agent package lies beside this binary and none is installed: both versions read as "")
+                            _ => std::fs::write(STATUS_FILE, status_doc("")).unwrap(),
+                        };
+                        set_input(a);
+                        let h = tokio::spawn(verif_access::monitor_loop());
+                        let mut seen: Vec<String> = Vec::new();
+                        for (pi, next) in [Some(b), None].iter().enumerate() {
+                            tokio::time::sleep(Duration::from_secs(if pi == 0 { 1 } else { 15 })).await;
+                            let st = status_of(&file).unwrap_or_else(|| "(no report)".into());
+                            seen.push(st.clone());
+                            passes += 1;
+                            if st == constants::ERROR_STATUS {
+                                res.violation("monitor:error-before-20-failures:after-service-start", &format!("a service that has just started (the status folder held {:?} for this sequence number) reports Error after pass {} (inputs {:?} then {:?}): it cannot have seen 20 consecutive failed observations", pre.unwrap_or("no report"), pi + 1, a, b), json!({"family": "service-lives", "report_before_start": pre, "inputs": [format!("{:?}", a), format!("{:?}", b)], "pass": pi + 1}));
+                            }
+                            if let Some(n) = next {
+                                set_input(*n);
+                            }
+                        }
+                        h.abort();
+                        let _ = h.await;
+                        lives += 1;
+                        *life_outcomes.entry(format!("{:?}: {:?},{:?} -> {}", pre.unwrap_or("none"), a, b, seen.join(","))).or_insert(0) += 1;
+                        let _ = drain_events(&ev_dir).await;
+                    }
+                }
+            }
+        });
+        let _ = std::fs::remove_file(exe_dir.join(constants::HANDLER_ENVIRONMENT_FILE));
+        let _ = std::fs::remove_file(exe_dir.join(constants::CURRENT_SEQ_NO_FILE));
+    }
     let _ = std::fs::remove_dir_all(&base);
     let _ = std::fs::remove_file(STATUS_FILE);
     if !shim.is_empty() {
@@ -317,11 +376,13 @@ fn main() {
     }
     res.cov("monitor_sequences", seqs.len() as u64);
     res.cov("monitor_passes", passes);
+    res.cov("service_lives", lives);
+    res.cov("service_life_outcomes", json!(life_outcomes));
     res.cov("monitor_sequences_with_owned_time_between_passes", n_timed);
     res.cov("events_read_back", events_seen);
     res.cov("notification_classes", json!(classes));
     res.cov("evaluations", passes);
     res.cov("exhaustive", true);
-    res.cov("monitor_rule", format!("every sequence of {la} monitor passes over {{status file absent, other version, healthy, present but not JSON}} and of {lb} passes over {{setup tool not startable, exit 1, exit 0, healthy, absent}}, sustained conditions of 250 passes and 125 passes after a change, failure runs of 18..25 passes of five kinds followed by successes, conditions alternating every 1/2/5 passes (30 phases), runs of 1..25 passes in which the agent's own overall state is ERROR in a file of the expected version; 19 failures of four kinds with 0 s .. 24 h of monotonic time (owned through an LD_PRELOAD shim on clock_gettime) between passes, e.g. 400 s after the first failure, 60 s between all, 301 s before the seventh; the real report_proxy_agent_aggregate_status / report_proxy_agent_service_status (through the guarded verif_access module) with the real event logger on a paused clock"));
+    res.cov("monitor_rule", format!("every sequence of {la} monitor passes over {{status file absent, other version, healthy, present but not JSON}} and of {lb} passes over {{setup tool not startable, exit 1, exit 0, healthy, absent}}, sustained conditions of 250 passes and 125 passes after a change, failure runs of 18..25 passes of five kinds followed by successes, conditions alternating every 1/2/5 passes (30 phases), runs of 1..25 passes in which the agent's own overall state is ERROR in a file of the expected version; 19 failures of four kinds with 0 s .. 24 h of monotonic time (owned through an LD_PRELOAD shim on clock_gettime) between passes, e.g. 400 s after the first failure, 60 s between all, 301 s before the seventh; the real report_proxy_agent_aggregate_status / report_proxy_agent_service_status (through the guarded verif_access module) with the real event logger on a paused clock; plus 36 lives of the real monitor loop (guarded hook), each started on a status folder that already holds none / transitioning / success / error for the current sequence number, two passes each over {{absent, healthy, other version}}: a life never reports Error"));
     std::process::exit(res.finish());
 }
